@@ -62,6 +62,9 @@ pub enum Step {
     DownloadSbom,
     /// consumes the context: always the last step of its build
     Rebuild(Box<BuildNode>),
+    /// an independent `TestRunner::build` made while this build's context is still alive (two
+    /// builds at once); `id` is the marker value that tells its pack builds apart
+    NestedBuild { id: usize, node: Box<BuildNode> },
 }
 
 #[derive(Clone, Debug, PartialEq, Serialize, Deserialize)]
@@ -221,6 +224,17 @@ fn gen_build(r: &mut Rng, depth: u32) -> BuildNode {
             _ => steps.push(Step::DownloadSbom),
         }
     }
+    if depth == 0 && r.chance(1, 8) {
+        // mostly the very same app, builder and buildpacks (identical inputs give the same image
+        // contents under another name)
+        let node = if r.chance(2, 3) {
+            BuildNode { cfg: BuildCfg { preprocessor: None, own_buildpack: None, ..cfg.clone() }, steps: Vec::new() }
+        } else {
+            gen_build(r, 2)
+        };
+        let at = r.usize(steps.len() + 1);
+        steps.insert(at, Step::NestedBuild { id: 100 + r.usize(800), node: Box::new(node) });
+    }
     if depth < 2 && r.chance(1, 3) {
         steps.push(Step::Rebuild(Box::new(gen_build(r, depth + 1))));
     }
@@ -266,6 +280,7 @@ pub fn count_positions(n: &BuildNode) -> u32 {
                 }
             }
             Step::Rebuild(b) => c += count_positions(b),
+            Step::NestedBuild { node, .. } => c += count_positions(node),
             _ => {}
         }
     }
